@@ -258,6 +258,10 @@ HandleLogon(s, m) ==
     IN IF s.cfg.bs = 50 /\ m.dav = "none" THEN [s |-> s, err |-> Rej(1, 1137)]
        ELSE IF va.rej.k # "ok" THEN [s |-> va.s, err |-> va.rej]
        ELSE
+       \* identity and time are checked before anything is reset (the sequence number after it)
+       LET vs0 == VerifySelect(va.s, m, FALSE, FALSE, FALSE) IN
+       IF vs0.rej.k # "ok" THEN [s |-> va.s, err |-> vs0.rej]
+       ELSE
        LET reset == reset0 \/ (m.rsf = "Y" /\ ~s.sentReset)
            s1 == IF reset THEN StoreReset(va.s) ELSE va.s
            vs == VerifySelect(s1, m, FALSE, TRUE, FALSE)
